@@ -23,7 +23,7 @@ PROPS["C19"] = dict(
     spec_ids=["C19"],
     technique="Lean 4 theorems on the transcribed comparators and insertion sort; differential run of the real comparators/sort against the model",
     level_text="Kernel-checked theorems: cmpHash is an irreflexive, antisymmetric, transitive, total order on distinct hashes; cmpLWW the same when clock id/time pairs differ; clockCompare antisymmetric and transitive; all respect clock time; FWW = -LWW; goSort is a permutation, sorted and input-order independent under those orders. Unbounded integers, any ids and hashes. The model is tied to the code by running the real comparators and sorting.Sort on a grid including extreme times and comparing every answer.",
-    level_note="Trusted: Lean kernel; that Go's sort.SliceStable is a correct stable sort for n > 20 (insertion sort is modelled exactly; for a strict total order the sorted permutation is unique, proved); harness + driver. Go int is modelled as an unbounded integer: the repaired Compare never subtracts, and the grid contains MinInt64/MaxInt64 so a reintroduced wrap-around is seen.",
+    level_note="Trusted: Lean kernel; that Go's sort.SliceStable is a correct stable sort for n > 20 (insertion sort is modelled exactly; for a strict total order the sorted permutation is unique, proved); harness + driver. Go int is modelled as an unbounded integer: the repaired Compare never subtracts, and the grid contains MinInt64/MaxInt64 so a reintroduced wrap-around is seen. LamportClock.Compare, SortByClocks, SortByClockID, First, LastWriteWins, FirstWriteWins, SortByEntryHash and NoZeroes are additionally TRANSLATED from the Go source to Lean on every run (Generated/Sorting.lean) and proved equal to the model (Props/C19Gen.lean).",
     design_ref="§8 C19",
     rule="pairs: full grid 10 times x 7 ids (incl. prefix-related and empty) x same/different hash, sampled by seed in quick; sorts: random lists (1-12 with ties allowed, 21-80 without). distinct = distinct (time,id,hash-equality) classes of pairs + distinct sort inputs; non-trivial = pair differing in exactly the deciding component or a sort of >= 2 elements",
 )
@@ -111,7 +111,7 @@ PROPS["C20"] = dict(
 )
 
 PROPS_EXTRA = {"C06": ["Props.EffectFacts", "Props.CodecFacts"], "C17": ["Props.EffectFacts"], "C04": ["Props.C04Conc"],
-               "C02": ["Props.C13Facts"], "C15": ["Props.C13Facts"],
+               "C02": ["Props.C13Facts"], "C15": ["Props.C13Facts"], "C19": ["Props.C19Gen"], "C03": ["Props.C19Gen"],
                "C07": ["Props.CodecFacts"], "C08": ["Props.CodecFacts"], "C12": ["Props.CodecFacts"], "C18": ["Props.CodecFacts"]}
 _core_prop("C06", "Merge admits only verified, authorised entries and is all-or-nothing",
     r"(join|joinN|append|tamper)/(join\..*|append\.denied|entries|len|heads|rawheads|values|clock|snapshot\..*|json\.heads)",
